@@ -254,8 +254,117 @@ def runner_check(I, scope, outcome):
     p.oblige(f'{L}::post::commands-run-inside-the-task-directory', isinstance(cwd, SV) and cwd.t == want_dir, kind='post', meta={'expr': 'cwd = output_dir'})
 
 
+# ---- make_cap_paths: the contract the runner relies on, verified
+def c_cap_paths():
+    return Contract(RUNF, 'make_cap_paths', params={'base_path': 'Obj:Path'}, signals={},
+                    ensures=[('C19-stdout-and-stderr-are-files-of-the-task-directory', 'same(str(returned[0]), str(base_path) + "/stdout") and same(str(returned[1]), str(base_path) + "/stderr")'),
+                             ('C19-the-two-streams-go-to-different-files', 'not same(str(returned[0]), str(returned[1]))')])
+
+
+def cap_world():
+    w = make_runner_world()
+    w.class_models['Path'].fields = {'s': 'Str'}
+    del w.globals['make_cap_paths']
+
+    def ensure(I, p):
+        I.trace.append(('ensure', p))
+    w.globals['ensure'] = ensure
+    return w
+
+
+def cap_check(I, scope, outcome):
+    L = f'{RUNF}::make_cap_paths'
+    ens = [e[1] for e in I.trace if e[0] == 'ensure']
+    res = outcome[1] if outcome[0] == 'return' else None
+    ok = isinstance(res, tuple) and len(res) == 2 and len(ens) == 2 and all(isinstance(p, SObj) for p in ens)
+    if ok:
+        got = sorted(I.getfield(p, 's').t.sexpr() for p in ens)
+        want = sorted(I.getfield(p, 's').t.sexpr() for p in res)
+        ok = got == want
+    I.path.oblige(f'{L}::post::C19-both-capture-files-are-made-sure-to-exist', ok, kind='post', meta={'expr': 'ensure() is called on exactly the two returned paths'})
+
+
+# ---- PythonTask.do: the function is called once; its answer is the answer of the task; a TaskException is a FAILED task with its reason
+PYF = 'valjean/cosette/pythontask.py'
+
+
+def do_world():
+    w = make_world()
+    w.exc_parents['TaskException'] = 'Exception'
+    w.exc_parents['SomeOtherError'] = 'Exception'
+    w.globals['TaskException'] = SClass('TaskException')
+    w.globals['MappingProxyType'] = lambda I, env: ('proxy', env)
+    # `from types import MappingProxyType` inside the function
+    w.import_hook = lambda I, module, names: None
+    for cname in ('PythonTask', 'Func', 'EnvX', 'ConfigX', 'Answer'):
+        w.class_models[cname] = type(cname, (ClassModel,), {'name': cname, 'fields': {}})(w)
+    return w
+
+
+def do_setup(variant):
+    def setup(I, scope):
+        I.trace = []
+        I.answer = I.alloc('Answer', {})
+
+        def func(I2, *args, **kwargs):
+            I2.trace.append(('func', args, dict(kwargs)))
+            if I2.path.cond(z3.Bool(I2.path.name('func_raises_TaskException'))):
+                from pyvc.values import SPyExc
+                exc = SPyExc('TaskException', ())
+                exc.because = I2.because
+                I2.raise_exc(exc) if hasattr(I2, 'raise_exc') else I2.raise_('TaskException')
+            if I2.path.cond(z3.Bool(I2.path.name('func_raises_something_else'))):
+                I2.raise_('SomeOtherError')
+            return I2.answer
+        I.because = I.fresh(STR, 'because')
+        I.a0, I.k0 = I.fresh(STR, 'positional0'), I.fresh(STR, 'keyword0')
+        me = I.alloc('PythonTask', {'name': I.fresh(STR, 'task_name'), 'func': func, 'args': [I.a0], 'kwargs': {'kw': I.k0},
+                                    'env_kwarg': 'env' if variant in ('env', 'env+config') else None, 'config_kwarg': 'config' if variant in ('config', 'env+config') else None})
+        scope.set('self', me)
+        I.env, I.config = I.alloc('EnvX', {}), I.alloc('ConfigX', {})
+        scope.set('env', I.env)
+        scope.set('config', I.config)
+    return setup
+
+
+def c_do(variant):
+    return Contract(PYF, 'PythonTask.do', params={}, signals={'SomeOtherError': True}, variant=variant)
+
+
+def do_check(variant):
+    def check(I, scope, outcome):
+        L = f'{PYF}::PythonTask.do[{variant}]'
+        calls = [e for e in I.trace if e[0] == 'func']
+        ok = len(calls) == 1
+        if ok:
+            _, args, kwargs = calls[0]
+            want_keys = {'kw'} | ({'env'} if 'env' in variant else set()) | ({'config'} if 'config' in variant else set())
+            ok = len(args) == 1 and args[0] is I.a0 and set(kwargs) == want_keys and kwargs['kw'] is I.k0
+            if ok and 'env' in variant:
+                ok = kwargs['env'] == ('proxy', I.env)          # a read-only view of the environment
+            if ok and 'config' in variant:
+                ok = kwargs['config'] is I.config
+        I.path.oblige(f'{L}::post::C19-the-function-is-called-exactly-once-with-its-arguments-a-read-only-environment-and-the-configuration', ok, kind='post',
+                      meta={'expr': 'func(*args, **kwargs, [env=MappingProxyType(env)], [config=config]) once'})
+        if outcome[0] == 'return':
+            res = outcome[1]
+            raised = any(str(d).startswith('func_raises_TaskException') and v for d, v in getattr(I.path, 'named_decisions', {}).items()) if hasattr(I.path, 'named_decisions') else None
+            if res is I.answer:
+                good = True
+            else:
+                # the TaskException branch: ({name: {'why': because}}, FAILED)
+                F = I.world.enum_const('TaskStatus', 'FAILED')
+                good = isinstance(res, tuple) and len(res) == 2 and isinstance(res[0], dict) and isinstance(res[1], SV) and z3.eq(res[1].t, F.t) and len(res[0]) == 1
+                if good:
+                    (k, v), = res[0].items()
+                    good = k is I.getfield(scope.lookup('self'), 'name') and isinstance(v, dict) and set(v) == {'why'}
+            I.path.oblige(f'{L}::post::C19-the-answer-of-the-function-is-the-answer-of-the-task-a-TaskException-is-a-FAILED-task-with-its-reason', good, kind='post',
+                          meta={'expr': 'result is what func returned, or ({name: {why: ...}}, FAILED) when func raised TaskException'})
+    return check
+
+
 def units(tier):
-    return ['run', 'sanitize', 'ownership', 'runner', 'native']
+    return ['run', 'sanitize', 'ownership', 'runner', 'cap_paths', 'python_task_do', 'native']
 
 
 def _replay_native(name, inp):
@@ -308,6 +417,17 @@ def run_unit(unit, tier, seed, known):
             from pyvc import solve
             return {'name': solve.py_of(model, r.inputs['scope']['name'])}
         return {'functions': [prop.discharge(res, tier, ID, conc, replay_sanitize)]}
+    if unit == 'cap_paths':
+        def setup(I, scope):
+            I.trace = []
+        res = verify_function(cap_world(), c_cap_paths(), setup=setup, extra_check=cap_check)
+        return {'functions': [prop.discharge(res, tier, ID, lambda m, r: {'note': 'see model text'}, _replay_native)]}
+    if unit == 'python_task_do':
+        out = []
+        for variant in ('plain', 'env', 'config', 'env+config'):
+            res = verify_function(do_world(), c_do(variant), setup=do_setup(variant), extra_check=do_check(variant))
+            out.append(prop.discharge(res, tier, ID, lambda m, r: {'note': 'see model text'}, _replay_native))
+        return {'functions': out}
     if unit == 'runner':
         w = make_runner_world()
         w.globals['NUL'] = '\x00'
